@@ -23,6 +23,8 @@ POSITIONS = [
     ("q3k1nr/1pp1nQpp/3p4/1P2p3/4P3/B1PP1b2/B5PP/5K2 b k - 0 17", False, False),
     ("4k3/pp6/8/8/8/8/PP2q3/4K3 w - - 0 1", True, True),      # only Kxe2
     ("4k3/pp2Q3/8/8/8/8/PP6/4K3 b - - 0 1", False, True),     # only Kxe7
+    ("6k1/5ppp/8/8/8/8/5PPP/R5K1 w - - 0 1", True, False),    # mate in one: the search ends by itself, also while pondering
+    ("r5k1/5ppp/8/8/8/8/5PPP/6K1 b - - 0 1", False, False),
 ]
 TAUS = [10, 100, 1000, 10 ** 4, 10 ** 5, 10 ** 6]   # microseconds of virtual time per node
 QCAP = 100000      # nodes: sanity cap on what a quiescence search may add to the nominal polling period (17 000 observed)
@@ -177,7 +179,7 @@ def run_block(ctx, name, lines, pred, env):
     out1, out2, mis = vlib.diff_lines(ctx, name, lines, "plain", env=env)
     ctx.count(len(lines))
     for l in lines:
-        ctx.distinct(l)
+        ctx.distinct(hash(l))
     for l, o in list(zip(lines, out1))[1:3]:
         ctx.sample({"op": l, "impl": o})
     if len(out1) != len(lines):
@@ -214,7 +216,7 @@ def gen_scenarios(ctx, n):
 
     scs = []
     for i in range(n):
-        pos = r.randrange(len(POSITIONS)) if r.random() < 0.7 else r.choice([8, 9])
+        pos = r.randrange(len(POSITIONS)) if r.random() < 0.7 else r.choice([8, 9, 10, 11])
         white = POSITIONS[pos][1]
         opts = {"Ponder": r.random() < 0.4, "BufferTime": r.choice([1, 10, 100, 1000, 1000, 3000, 10000]),
                 "MaxNPS": r.choice([0, 0, 0, 0, 1, 50, 150, 1000, 20000, 10 ** 6]), "Threads": r.choice([1, 1, 1, 1, 2, 3, 4])}
@@ -416,9 +418,12 @@ def eval_scenario(sc, seg, complete):
         if not flags:
             bad.append("best move was sent while pondering / searching infinitely without stop or ponderhit")
         else:
-            tf = flags[0]
-            if t_best < tf or t_best > max(t_end, tf + 10000):
-                bad.append(f"best move at {t_best} us; search ended {t_end} us, stop/ponderhit at {tf} us: outside [flag, max(end, flag + 10 ms)]")
+            # the command is delivered at the first clock step at or after its scheduled time, so the latency of the
+            # 10 ms wait loop shows against the scheduled time (wait_loop_bound)
+            tf, ts = flags[0], (tstart_ms + sc["at"]) * 1000
+            if t_best < tf or t_best > max(t_end, ts + 10000):
+                bad.append(f"best move at {t_best} us; search ended {t_end} us, stop/ponderhit scheduled {ts} us, delivered {tf} us: "
+                           f"outside [delivered, max(end, scheduled + 10 ms)]")
     elif t_best != t_end:
         bad.append(f"best move at {t_best} us but the search ended at {t_end} us")
     # poll trace: hypotheses of the model and the stop rule on the implementation
@@ -574,11 +579,14 @@ def run(ctx):
                         "polling interval = longest stretch between two evaluations of Search::shouldStop measured by the hook in that search "
                         f"(nominally nodesBetweenTimeCheck nodes; sanity cap nominal + {QCAP} nodes)",
                         "the harness reads private members of EngineControl / Search via #define private public"]
-    lines = gen_alloc(ctx, 600000 if quick else 6000000)
-    ctx.log(f"alloc grid: {len(lines)} lines")
-    run_block(ctx, "alloc-grid", lines, alloc_predicate, env)
-    lines = gen_poll(ctx, 100000 if quick else 2000000)
-    run_block(ctx, "stop-rule-grid", lines, poll_predicate, dict(env, TEXEL_VERIF_CLOCK="10"))
+    for rnd in range(1 if quick else 10):
+        lines = gen_alloc(ctx, 600000 if quick else 1000000)
+        ctx.log(f"alloc grid: {len(lines)} lines")
+        run_block(ctx, "alloc-grid", lines, alloc_predicate, env)
+        lines = gen_poll(ctx, 100000 if quick else 300000)
+        run_block(ctx, "stop-rule-grid", lines, poll_predicate, dict(env, TEXEL_VERIF_CLOCK="10"))
+        if ctx.violations:
+            break
     ctx.log("engine scenarios")
     scs = gen_scenarios(ctx, 1000 if quick else 20000)
     engine_block(ctx, bdir, scs, "grid")
